@@ -70,7 +70,7 @@ func lexCase(t *vlib.T, fam, src string) {
 		return
 	}
 	key := fam + "|" + src
-	t.Case(key, func() *vlib.Outcome {
+	tcase(t, key, func() *vlib.Outcome {
 		ctxs := lexCtxs[:1]
 		if strings.Contains(src, "x") || strings.Contains(src, "m") {
 			ctxs = lexCtxs
@@ -79,7 +79,7 @@ func lexCase(t *vlib.T, fam, src string) {
 	})
 	if fam[len(fam)-1] == 'P' { // padded twin
 		key = fam + "+pad|" + src
-		t.Case(key, func() *vlib.Outcome {
+		tcase(t, key, func() *vlib.Outcome {
 			return runSource(fam+"+pad", pad+src, lexCtxs[:1], hasOpener(src), nil)
 		})
 	}
